@@ -47,6 +47,51 @@ def _jsonable(v):
     return str(v)
 
 
+def _spool_path(name):
+    d = os.path.join(VERIF, "work", "spool")
+    os.makedirs(d, exist_ok=True)
+    return os.path.join(d, "%d-%s.jsonl" % (os.getppid(), hashlib.sha1(name.encode()).hexdigest()[:12]))
+
+
+class _SpoolList(list):
+    """Obligation results; counterexamples are also appended to a spool file as they are found,
+    so that a case killed for exceeding its budget still hands over what it had found."""
+
+    def __init__(self, path):
+        super().__init__()
+        self._path, self._n = path, 0
+        try:
+            os.unlink(path)
+        except OSError:
+            pass
+
+    def append(self, r):
+        super().append(r)
+        if r.status == "sat" and self._n < 20:
+            self._n += 1
+            with open(self._path, "a") as f:
+                f.write(json.dumps({"obligation": r.name, "status": r.status,
+                                    "model": _jsonable(r.model),
+                                    "detail": _jsonable(r.detail)}) + "\n")
+
+
+def _read_spool(name, ppid):
+    p = os.path.join(VERIF, "work", "spool",
+                     "%d-%s.jsonl" % (ppid, hashlib.sha1(name.encode()).hexdigest()[:12]))
+    out = []
+    try:
+        with open(p) as f:
+            for ln in f:
+                try:
+                    out.append(json.loads(ln))
+                except ValueError:
+                    pass
+        os.unlink(p)
+    except OSError:
+        pass
+    return out
+
+
 def _run_case(name):
     """Worker: explore one case, return a picklable summary."""
     from symx.ctx import Ctx, explore
@@ -61,6 +106,7 @@ def _run_case(name):
         if case.shard is not None:
             ckw["shard"] = case.shard
         cx = Ctx(**ckw)
+        cx.results = _SpoolList(_spool_path(name))
         h = case.harness
         explore((lambda c: h(c, **kw)) if kw else h, cx)
         by = {}
@@ -78,6 +124,10 @@ def _run_case(name):
     except BaseException as e:  # harness error, including unexpected PathAbort leaks
         out["error"] = "".join(traceback.format_exception(type(e), e, e.__traceback__))[-3000:]
     out["wall_s"] = round(time.time() - t0, 3)
+    try:
+        os.unlink(_spool_path(name))
+    except OSError:
+        pass
     return out
 
 
@@ -168,7 +218,8 @@ def run_cases(cases, workers=None, timeout_s=None):
                     results[w.name] = {
                         "name": w.name, "kw": _jsonable(_REGISTRY[w.name].kw),
                         "error": f"case exceeded its {w.lim:.0f}s budget (solver or term growth "
-                                 f"did not finish): inconclusive", "wall_s": w.lim}
+                                 f"did not finish): inconclusive", "wall_s": w.lim,
+                        "bad": _read_spool(w.name, os.getpid())}
                     pool[i] = W()
             time.sleep(0.02)
     finally:
@@ -272,6 +323,9 @@ def finish(prop, tier, seed, t0, outs, *, level="other", explanation, functions,
     for o in outs:
         if o.get("error"):
             errors.append((o["name"], o["error"]))
+            # counterexamples found before a budget kill are still replayed and reported
+            for b in o.get("bad") or []:
+                violations.append((o["name"], b))
             continue
         for k in tot:
             if k == "max_terms":
